@@ -1,0 +1,105 @@
+"""
+Tracing hook for external verification tooling.
+
+Imported only when the environment variable GFAPY_VERIF is set (see the end of
+gfapy/__init__.py). It wraps the public mutating entry points of Gfa and Line
+and reports each top-level call, after it returned or raised, to a callback
+installed by the tool (gfapy._verif_trace.callback). Nested calls (a call made
+by gfapy itself while another traced call is running) are not reported.
+Without a callback the wrappers only count the nesting depth.
+"""
+import functools
+import threading
+import gfapy
+
+callback = None
+"""callable(event: dict) or None; event keys: gfa, op, args, error"""
+
+_state = threading.local()
+
+def _depth():
+  return getattr(_state, "depth", 0)
+
+def _emit(gfa, op, args, error):
+  cb = callback
+  if cb is not None and gfa is not None:
+    cb({"gfa": gfa, "op": op, "args": args, "error": error})
+
+def _wrap(cls, name, op, describe, owner):
+  original = getattr(cls, name)
+  @functools.wraps(original)
+  def wrapper(self, *args, **kwargs):
+    depth = _depth()
+    if depth > 0 or callback is None:
+      _state.depth = depth + 1
+      try:
+        return original(self, *args, **kwargs)
+      finally:
+        _state.depth = depth
+    gfa = owner(self)
+    try:
+      described = describe(self, *args, **kwargs)
+    except Exception:
+      described = None
+    _state.depth = depth + 1
+    error = None
+    try:
+      return original(self, *args, **kwargs)
+    except BaseException as err:
+      error = err
+      raise
+    finally:
+      _state.depth = depth
+      _emit(gfa if gfa is not None else owner(self), op, described, error)
+  setattr(cls, name, wrapper)
+
+def _text(x):
+  return x if isinstance(x, str) else str(x)
+
+def _install():
+  G = gfapy.Gfa
+  L = gfapy.Line
+  self_gfa = lambda self: self
+  line_gfa = lambda self: self._gfa
+  _wrap(G, "__init__", "init",
+        lambda self, *a, **k: {"data": (a[0] if a else None),
+                               "vlevel": k.get("vlevel", 1),
+                               "version": k.get("version", None),
+                               "dialect": k.get("dialect", "standard")},
+        self_gfa)
+  _wrap(G, "add_line", "add",
+        lambda self, l: {"text": None if l is None else _text(l)}, self_gfa)
+  G.append = G.add_line
+  _wrap(G, "process_line_queue", "flush", lambda self: {}, self_gfa)
+  _wrap(G, "rm", "rm",
+        lambda self, l: ({"id": l} if isinstance(l, str) else {"text": _text(l)}),
+        self_gfa)
+  _wrap(G, "read_file", "read_file",
+        lambda self, filename: {"filename": filename}, self_gfa)
+  for name in ["multiply", "merge_linear_paths", "merge_linear_path",
+               "remove_small_components", "remove_dead_ends",
+               "remove_p_bubbles", "remove_p_bubble",
+               "enforce_segment_mandatory_links", "enforce_all_mandatory_links",
+               "remove_self_link", "remove_self_links",
+               "delete_low_coverage_segments", "compute_copy_numbers",
+               "apply_copy_numbers", "randomly_orient_invertibles",
+               "randomly_orient_invertible"]:
+    if hasattr(G, name):
+      _wrap(G, name, name, lambda self, *a, **k: {"args": repr(a)}, self_gfa)
+  _wrap(L, "disconnect", "disconnect",
+        lambda self: {"text": _text(self)}, line_gfa)
+  _wrap(L, "set", "set",
+        lambda self, fieldname, value: {"text": _text(self), "id": self.get("name"),
+                                        "field": fieldname, "value": repr(value),
+                                        "name_field": self.__class__.NAME_FIELD},
+        line_gfa)
+  _wrap(L, "_set_existing_field", "set",
+        lambda self, fieldname, value, set_reference=False:
+          {"text": _text(self), "id": self.get("name"), "field": fieldname,
+           "value": repr(value), "name_field": self.__class__.NAME_FIELD},
+        line_gfa)
+  _wrap(L, "delete", "delete",
+        lambda self, tagname: {"text": _text(self), "id": self.get("name"),
+                               "field": tagname}, line_gfa)
+
+_install()
